@@ -289,6 +289,20 @@ func hashTree(root, path, ext string, t *Tree, newh func() hash.Hash, order int)
 	if err := os.MkdirAll(filepath.Dir(abs), 0o755); err != nil {
 		return nil, err
 	}
+	if t.Kind == 'l' && strings.HasPrefix(t.Data, "$W/") {
+		// a destination written as an absolute path inside the REAL root: it exists (a file holding ext), so that
+		// both branches of hash() can be executed on it — the pinned code never opens it, a variant that
+		// treats such a link as a system tool would hash its contents
+		dst := filepath.Clean(expand(t.Data))
+		if strings.HasPrefix(dst, workDir+"/") && dst != abs && !strings.HasPrefix(dst, abs+"/") && !strings.HasPrefix(abs, dst+"/") {
+			if err := os.MkdirAll(filepath.Dir(dst), 0o755); err != nil {
+				return nil, err
+			}
+			if err := os.WriteFile(dst, []byte(ext), 0o644); err != nil {
+				return nil, err
+			}
+		}
+	}
 	if t.Kind == 'l' && strings.HasPrefix(t.Data, "$X/") {
 		// a "system tool": the file behind the link holds ext
 		dst := expand(t.Data)
@@ -883,6 +897,14 @@ func main() {
 		}
 	}
 
+	// 3a. top-level links into the real root by absolute path, re-pointed between existing files of equal contents
+	for _, pr := range [][2]string{{"x", "y"}, {"a", "d/a"}, {"a b", "a"}, {"d/e/f", "d/e/g"}} {
+		runOp(r, opPair("$W", "t", L("$W/"+pr[0]), L("$W/"+pr[1])))
+		runOp(r, opPair("$W/", "pkg/out", L("$W/"+pr[0]), L("$W//"+pr[1])))
+		runOp(r, opPre("pre", "$W", "t", "same contents", L("$W/"+pr[0])))
+		runOp(r, opPre("pre", "$W", "t", "same contents", L("$W/"+pr[1])))
+		r.Count("link-under-real-root-repointed")
+	}
 	// 3. top-level symlinks: managed (relative / under the root as a string), system tools, absolute paths
 	for i := 0; i < r.N(80, 1500); i++ {
 		root := lib.Pick(r.Rng, []string{fakeRoot, "$W", "/R/"})
@@ -905,10 +927,17 @@ func main() {
 			t = L("$X/tool")
 			ext = randContent(r)
 			r.Count("absolute-path-link")
-		case 3: // destination under the root given as $W
+		case 3: // destination written as an absolute path under the REAL root ($W): the destination file exists
 			root = "$W"
-			t = L("$W/" + lib.Pick(r.Rng, names))
+			n1 := lib.Pick(r.Rng, names)
+			t = L("$W/" + n1)
+			ext = randContent(r)
 			r.Count("link-under-real-root")
+			// re-pointing the link to another in-root file with the same contents must change the hash
+			if n2 := lib.Pick(r.Rng, names); n2 != n1 {
+				runOp(r, opPair(root, path, t, L("$W/"+n2)))
+				r.Count("link-under-real-root-repointed")
+			}
 		default:
 			t = L(lib.Pick(r.Rng, []string{fakeRoot + "/a", fakeRoot + "a", fakeRoot + "//a/b", "a", fakeRoot}))
 			if !managed(expandModel(root), path, t) {
